@@ -634,6 +634,30 @@ def cli_check(pid, tier, replay_file=None):
             summary = '%s%s: %s %s at event %s (trace %s)' % ('' if owner == pid else '[invariant owned by %s] ' % owner, owner, f['what'], f.get('detail', ''),
                                                              json.dumps({k: f['event'].get(k) for k in ('ev', 'c', 'a', 'b', 's', 'seq', 'k', 'calls')}), f['name'])
             sch = ss[f['trace']] if f['trace'] < len(ss) else None
+            # a trace in which calls reached the RoundTripper with an address although not one routing / detector event of the
+            # library was recorded is a recording gap of the harness (seen once; cause not found), not an execution of the code to
+            # judge: that schedule is replayed again alone, and only what the second trace shows counts
+            tev = [e.get('ev', '') for e in f.get('trace_events', [])]
+            gap = any(e.get('ev') == 'rt.call' and e.get('a', 0) > 0 for e in f.get('trace_events', [])) and \
+                not any(x.startswith(('k.sched', 'k.route', 'k.wait', 'k.detect', 'k.check')) for x in tev)
+            if gap and sch is not None and not replay_file:
+                cov['recording_gaps'] = cov.get('recording_gaps', 0) + 1
+                rp2, cr2 = kf.replay([sch], pid + '_gap')
+                again = []
+                for gk2, (tf2, res2, ss2) in rp2.items():
+                    acc2, again, st2 = kf.validate(tf2, ss2[0]['cfg'], pid + '_gap', [x['name'] for x in ss2])
+                if cr2:
+                    raise Machinery('re-run of a schedule with a recording gap crashed')
+                if not again:
+                    continue
+                f = again[0]
+                tev = [e.get('ev', '') for e in f.get('trace_events', [])]
+                if not any(x.startswith(('k.sched', 'k.route', 'k.wait', 'k.detect', 'k.check')) for x in tev):
+                    raise Machinery('hook events of the Client are not being recorded (schedule %s, twice)' % sch['name'])
+                owner = kf.OWN.get(f['what'], pid) if f['kind'] == 'invariant' else pid
+                sig = '%s:%s@%s' % (f['kind'], f['what'] if f['kind'] == 'invariant' else 'rejected', f['event'].get('ev', ''))
+                summary = '%s%s: %s %s at event %s (trace %s, second run)' % ('' if owner == pid else '[invariant owned by %s] ' % owner, owner, f['what'], f.get('detail', ''),
+                                                                            json.dumps({k: f['event'].get(k) for k in ('ev', 'c', 'a', 'b', 's', 'seq', 'k', 'calls')}), sch['name'])
             violations.append({'property': owner, 'signature': sig, 'summary': summary, 'schedule': sch,
                                'finding': {k: f[k] for k in ('kind', 'what', 'event', 'pos_in_trace', 'name')}, 'trace': f['trace_events']})
         if len(cov['samples']) < 3 and ss:
